@@ -475,7 +475,9 @@ class System:
                         obs.add('emit', (i, dec[1], dec[2]), g, fl)
                     S = self._relay(S, label, fl, obs, g)
                 else:
-                    # cancellation channel of the build future
+                    # cancellation channel of the build future (the only other channel an actor may send on)
+                    if data['chan'] != self._cancel_chan(i):
+                        raise Unsupported('send on channel %s, which is neither the engine channel nor the build cancellation channel' % data['chan'])
                     S = dict(S)
                     S['cancel.%d' % i] = T
                     obs.add('cancel', i, g)
